@@ -28,7 +28,25 @@ for fam in sorted(genmodels.FAMILIES):
     for i in range(n_per):
         texts.append(genmodels.gen_model(rng.sub(fam, i), fam)[1])
 texts += [t for _, t in Pools(repo).texts]
-extra = [_rms_normalization.rms_normalization_ruleset, _layer_norm.layer_normalization_ruleset,
+from onnxscript.rewriter.rules import common as _rc
+
+
+def _group(names):
+    rules = []
+    for n in names:
+        r = getattr(_rc, n)
+        if callable(r) and not isinstance(r, pattern.RewriteRule):
+            r = r()
+        rules.extend(r.rules if isinstance(r, pattern.RewriteRuleSet) else list(r) if isinstance(r, (list, tuple)) else [r])
+    return pattern.RewriteRuleSet(rules)
+
+
+extra = [_group(["fuse_hardswish_rules"]), _group(["conv_affine_fusion_rule", "affine_conv_fusion_rule"]),
+         _group(["expand_before_binary_op_rules"]), _group(["two_reshapes_matmul_reshape_rule", "one_reshape_matmul_reshape_rule"]),
+         _group(["no_op_static_scatter_nd_rule", "no_op_dynamic_scatter_nd_rule"]),
+         _group(["matmul_add_to_gemm_rule", "transpose_a_matmul_add_to_gemm_rule", "transpose_b_matmul_add_to_gemm_rule",
+                 "transpose_ab_matmul_add_to_gemm_rule", "gemm_to_matmul_add_rule"]),
+         _rms_normalization.rms_normalization_ruleset, _layer_norm.layer_normalization_ruleset,
          pattern.RewriteRuleSet([*gelu.gelu_rules.rules, *erfgelu.rules.rules, *bias_gelu.bias_gelu_rules.rules])]
 stat = collections.Counter()
 for t in texts:
